@@ -134,6 +134,11 @@ def L3_levels(ctx, rid, core, G):
                 has_lower = True
             elif S.contains_head(c, "var") or S.has_unknown(c):
                 unresolved = True
+    if not has_lower and not unresolved:
+        # the comparison may be written another way (`child.cmp(&parent)` + a match on the Ordering, a helper): not the form modelled.
+        # Positively wrong is only a function that never compares two precedences at all.
+        if any((H.kind(x) == "MethodCall" and x["name"] in ("cmp", "partial_cmp", "lt", "gt", "le", "ge", "max", "min")) or (H.kind(x) == "Binary" and x["op"] in ("Lt", "Gt", "Le", "Ge")) for x in H.walk(f["body"])):
+            unresolved = True
     ctx.inst(rid, "lower-precedence-child", True if has_lower else (None if unresolved else False),
              "child_prec < parent_prec -> parentheses: %s%s" % (has_lower, " (a precedence comparison exists but its operands could not be attributed to parent / child)" if unresolved and not has_lower else ""), H.loc(f["body"]))
     # call sites: (op, left, true) / (op, right, false)
@@ -249,8 +254,19 @@ def L6_reserved(ctx, rid, core, G):
     ctx.inst(rid, "RESERVED_WORDS", words == gw, "printer: %s; grammar: %s" % (words, gw), H.loc(st))
     # is_valid_identifier agrees with the grammar's identifier character classes
     f = core.hir_fn(A2S + "is_valid_identifier")
-    calls = sorted({n["name"] for n in H.walk(f["body"]) if H.kind(n) == "MethodCall" and n["name"].startswith("is_ascii")})
-    ctx.inst(rid, "is_valid_identifier#classes", calls == ["is_ascii_alphabetic", "is_ascii_alphanumeric"], "character tests %s (grammar: (ASCII_ALPHA | _)+ ~ (ASCII_ALPHA+ | ASCII_DIGIT+ | _+)*)" % calls, H.loc(f["body"]))
+    bodies, seen_f = [f["body"]], {A2S + "is_valid_identifier"}
+    for _ in range(2):
+        for b_ in list(bodies):
+            for n in H.walk(b_):
+                d_ = n.get("def") if H.kind(n) == "Call" else ((n.get("res") or {}).get("def") if H.kind(n) == "Path" and (n.get("res") or {}).get("dk") == "Fn" else None)
+                if d_ and d_.startswith(A2S) and d_ not in seen_f and d_ in core.hir and core.hir[d_].get("body") is not None:
+                    seen_f.add(d_)
+                    bodies.append(core.hir[d_]["body"])
+    tests = sorted({n["name"] for b_ in bodies for n in H.walk(b_) if H.kind(n) == "MethodCall" and (n["name"].startswith("is_ascii") or n["name"] in ("is_alphabetic", "is_alphanumeric", "is_numeric", "is_lowercase", "is_uppercase"))})
+    calls = [t for t in tests if t.startswith("is_ascii")]
+    wider = [t for t in tests if not t.startswith("is_ascii")]
+    v_cls = True if (calls == ["is_ascii_alphabetic", "is_ascii_alphanumeric"] and not wider) else (False if wider else None)
+    ctx.inst(rid, "is_valid_identifier#classes", v_cls, "character tests %s (grammar: (ASCII_ALPHA | _)+ ~ (ASCII_ALPHA+ | ASCII_DIGIT+ | _+)*)" % calls, H.loc(f["body"]))
 
 
 def L7_builtins(ctx, rid, core):
